@@ -302,12 +302,15 @@ type fnCtx struct {
 	writes    map[*ast.SelectorExpr]bool
 	atomics   map[*ast.SelectorExpr]bool
 	freshVars map[types.Object]token.Pos // fresh until this position
+	freshFrom map[types.Object]token.Pos // … and from this one (its first assignment from a freshly built object)
+	staleFrom map[types.Object]token.Pos // first assignment of something else (an existing, possibly shared object) to the variable
 }
 
 // prepass classifies selector expressions of a function body as written / atomically accessed
 // and finds variables holding freshly built objects.
 func (p *lsPkg) prepass(name string, body ast.Node) *fnCtx {
-	c := &fnCtx{name: name, writes: map[*ast.SelectorExpr]bool{}, atomics: map[*ast.SelectorExpr]bool{}, freshVars: map[types.Object]token.Pos{}}
+	c := &fnCtx{name: name, writes: map[*ast.SelectorExpr]bool{}, atomics: map[*ast.SelectorExpr]bool{}, freshVars: map[types.Object]token.Pos{},
+		freshFrom: map[types.Object]token.Pos{}, staleFrom: map[types.Object]token.Pos{}}
 	base := func(e ast.Expr) *ast.SelectorExpr {
 		for {
 			switch x := e.(type) {
@@ -364,6 +367,20 @@ func (p *lsPkg) prepass(name string, body ast.Node) *fnCtx {
 					}
 					if o != nil {
 						c.freshVars[o] = token.Pos(1 << 30)
+						if from, ok := c.freshFrom[o]; !ok || s.Pos() < from {
+							c.freshFrom[o] = s.Pos()
+						}
+					}
+				} else if id, ok := l.(*ast.Ident); ok && id.Name != "_" {
+					// the variable now names something that was not built here
+					o := p.info.Defs[id]
+					if o == nil {
+						o = p.info.Uses[id]
+					}
+					if o != nil {
+						if from, ok := c.staleFrom[o]; !ok || s.Pos() < from {
+							c.staleFrom[o] = s.Pos()
+						}
 					}
 				}
 			}
@@ -608,8 +625,11 @@ func (p *lsPkg) record(ctx *fnCtx, n ast.Node, st lockState) {
 			}
 			if id, ok := root.(*ast.Ident); ok {
 				if o := p.info.Uses[id]; o != nil {
-					if end, ok := ctx.freshVars[o]; ok && e.Pos() < end {
-						fresh = true
+					if end, ok := ctx.freshVars[o]; ok && e.Pos() < end && e.Pos() >= ctx.freshFrom[o] {
+						// … and nothing that was not built here has been assigned to the variable before this access
+						if st, stale := ctx.staleFrom[o]; !stale || e.Pos() < st {
+							fresh = true
+						}
 					}
 				}
 			}
